@@ -2,7 +2,7 @@
 PM — the pagination model, stage 2c: multi-column containers.
 
 Stage 1 (`Model/Paginate.lean`: nested block boxes and paragraphs of lines) extended with a `columns` box
-(`column-count: n; column-gap: 0; column-fill: balance | auto`, optional explicit `height`) whose children
+(`column-count: n; column-gap: <length>; column-fill: balance | auto`, optional explicit `height`) whose children
 are stage-1 boxes, some of them `column-span: all`.
 
 Branch-for-branch transcription of
@@ -20,13 +20,13 @@ stage 1 that do not mention boxes or fragments are reused as they are (`PStyle`,
 Follows /repo after the repairs 9436248 (the container's own top margin collapses with the margins before it),
 b24b457 (the loop over `columns_and_blocks` stops only when a group continues on the next page), 94e08d4 (second
 layout of a finished container only with a larger bottom space), 3162604 (`find_earlier_page_break` never goes into
-a container) and 0e65726 (column-width clamp: outside the grammar, `column-width` is `auto` here).
+a container), 0e65726 (column-width clamp: outside the grammar, `column-width` is `auto` here), d7e3d63 (a spanning
+child is resumed at its own level: `column_skip_stack = {0: resume_at}`, `skip_stack[0]` handed back) and 24ce8bf
+(`find_earlier_page_break` removes the bottom decoration of the box it cuts: `CFrag.cutEnd`).
 
-Not modelled (outside the grammar): column-width / column-gap ≠ 0, nested containers (the model treats an
-inner container with `in_column` still set when it returns; the Python code resets the flag), spans that are
-blocks with children (their resume positions are mis-levelled by `columns_layout`: content lost or an IndexError
-in the inline layout — open findings `column-span-block-resume-mislevelled` / `-crash`, corpus/C01/
-colspan_block_resume_*.json, proposed repair /tmp/w/S2C/proposed/column-span-block-resume.diff), footnotes, floats,
+Spanning children may be paragraphs, childless blocks or blocks with children (any stage-1 box).
+Not modelled (outside the grammar): column-width ≠ auto, column-gap: normal / %, nested containers (the model treats an
+inner container with `in_column` still set when it returns; the Python code resets the flag), footnotes, floats,
 absolutely positioned boxes.
 -/
 import WpModel.Model.Paginate
@@ -55,12 +55,13 @@ def CCtx.avoidsB (c : CCtx) (v : Brk) : Bool := avoids c.inColumn v
 def CCtx.forcesB (c : CCtx) (v : Brk) : Bool := forces c.inColumn v
 
 /-- Column geometry of a container: `column-count`, `column-fill: balance`, `direction: ltr`, used content
-width. (`column-gap` is 0.) -/
+width, used `column-gap` (a length; `column-width` is `auto`). -/
 structure ColSpec where
   count : Nat
   balance : Bool
   ltr : Bool
   width : Rat
+  gap : Rat := 0
   deriving Repr, Inhabited, BEq
 
 inductive ColBox where
@@ -231,6 +232,14 @@ def lineboxLayout (c : CCtx) (st : PStyle) (b : BoxSt) (n : Nat) (lineH : Rat) (
 
 /-! ### `find_earlier_page_break` -/
 
+/-- `new_child.remove_decoration(start=False, end=True)` (24ce8bf): the box cut at an earlier break loses its
+bottom margin, padding and border, unless `box-decoration-break: clone`; its height is not touched. -/
+def CFrag.cutEnd : CFrag → CFrag
+  | .para id idx st n g lines => .para id idx st n (g.cutBottom st) lines
+  | .block id idx st g kids => .block id idx st (g.cutBottom st) kids
+  | .cols id idx st g kids => .cols id idx st (g.cutBottom st) kids
+  | .column id st x g kids => .column id st x (g.cutBottom st) kids
+
 structure EarlierState where
   found : Option (List CFrag × Resume)
   prev : Option CFrag
@@ -273,8 +282,8 @@ def findEarlierGo (inCol : Bool) : List CFrag → EarlierState
           if !avoids inCol x.st.brkInside then
             match findEarlierFrag inCol x with
             | some (x', r) =>
-              -- `resume_at = {new_child.index: resume_at}`
-              { found := some ([x'], .node x.idx (some r)), prev := some x }
+              -- `new_child.remove_decoration(start=False, end=True)`; `resume_at = {new_child.index: resume_at}`
+              { found := some ([x'.cutEnd], .node x.idx (some r)), prev := some x }
             | none => { found := none, prev := some x }
           else { found := none, prev := some x }
 /-- `find_earlier_page_break(child.children)` for a breakable child that is not a multi-column container. -/
@@ -636,9 +645,12 @@ structure RealOut where
   err : Option String
   deriving Inhabited
 
+/-- `position_x` of column `i`: `width = max(0, box.width - (count - 1) * gap) / count`, then
+`i * (width + gap)` (ltr) or `box.width - (i + 1) * width - i * gap` (rtl). -/
 def colX (cs : ColSpec) (i : Nat) : Rat :=
-  let w := cs.width / cs.count
-  if cs.ltr then i * w else cs.width - (i + 1) * w
+  let avail := cs.width - ((cs.count : Rat) - 1) * cs.gap
+  let w := (if avail < 0 then 0 else avail) / cs.count
+  if cs.ltr then i * (w + cs.gap) else cs.width - (i + 1) * w - i * cs.gap
 
 /-- "Replace the current box children with real columns": the second `while True`.  With a definite height the
 loop only ends when the content is exhausted or a column cannot be rendered; `fuel` bounds it (every column
@@ -689,7 +701,8 @@ def colsLoop (env : ColEnv) (c : CCtx) (cs : ColSpec) (heightDefined : Bool) (or
     (lastIndex unitsFuel : Nat) : List ColItem → ColsState → ColsState
   | [], s => s
   | .span i :: rest, s =>
-    let r := env.laySpan c i s.y originalBs s.skip s.pie s.adj
+    -- `skip_stack and skip_stack[0]`: the spanning block is resumed at its own level
+    let r := env.laySpan c i s.y originalBs (subSkipOf s.skip) s.pie s.adj
     match r.err with
     | some e => { s with err := some e }
     | none =>
@@ -699,7 +712,8 @@ def colsLoop (env : ColEnv) (c : CCtx) (cs : ColSpec) (heightDefined : Bool) (or
     | some f =>
       let s := { s with newChildren := s.newChildren ++ [f], y := f.geo.borderBoxY + f.geo.borderHeight,
                         adj := s.adj ++ [f.geo.mb] }
-      if r.resume.isSome then { s with breakPage := true, colSkip := r.resume }
+      -- `column_skip_stack = {0: resume_at}`
+      if r.resume.isSome then { s with breakPage := true, colSkip := some (.node 0 r.resume) }
       else colsLoop env c cs heightDefined originalBs lastIndex unitsFuel rest { s with pie := false }
   | .group a _ :: rest, s =>
     let y := s.y + collapseMargin s.adj
